@@ -5,37 +5,37 @@ import HLV.Props.HoldFamily
 namespace HLV
 
 -- @theorem C05_release_only_what_is_held : on every execution of every well-typed program (any answers, ≤ n faults) each release names a lock the thread holds at that moment in exactly that mode
-theorem C05_release_only_what_is_held (n : Nat) (C : Ctx) (prog : List Stmt)
-    (hok : ProgOK C prog) (u : UserSt)
+theorem C05_release_only_what_is_held (n : Nat) (ro : RankOpt) (C : Ctx) (prog : List Stmt)
+    (hok : ProgOK ro C prog) (u : UserSt)
     {tr₁ tr₂ : List (Op × Resp)} {m : Mode} {x : LockId} {r : Resp} {out : Outcome Unit UserSt}
     (hp : Path (program C prog u) (tr₁ ++ (.rel m x, r) :: tr₂) out)
-    (ha : Admissible (HoldSpec n) {} tr₁) :
-    0 < (ghostAfter (HoldSpec n) {} tr₁).held x m :=
-  program_op_ok n C prog hok u hp ha
+    (ha : Admissible (HoldSpec n ro) {} tr₁) :
+    0 < (ghostAfter (HoldSpec n ro) {} tr₁).held x m :=
+  program_op_ok n ro C prog hok u hp ha
 
 -- @theorem C05_everything_released_at_the_end : when the program is over every hold has been given back: holds are counted, so together with the previous theorem each was released exactly once
-theorem C05_everything_released_at_the_end (n : Nat) (C : Ctx) (prog : List Stmt)
-    (hok : ProgOK C prog) (u u' : UserSt) {tr : List (Op × Resp)}
-    (hp : Path (program C prog u) tr (.ret u')) (ha : Admissible (HoldSpec n) {} tr) :
-    ∀ x m, (ghostAfter (HoldSpec n) {} tr).held x m = 0 := by
+theorem C05_everything_released_at_the_end (n : Nat) (ro : RankOpt) (C : Ctx) (prog : List Stmt)
+    (hok : ProgOK ro C prog) (u u' : UserSt) {tr : List (Op × Resp)}
+    (hp : Path (program C prog u) tr (.ret u')) (ha : Admissible (HoldSpec n ro) {} tr) :
+    ∀ x m, (ghostAfter (HoldSpec n ro) {} tr).held x m = 0 := by
   intro x m
-  rw [((wp_sound (HoldSpec n) (program_hold n C prog hok u) hp).2 ha).1]; rfl
+  rw [((wp_sound (HoldSpec n ro) (program_hold n ro C prog hok u) hp).2 ha).1]; rfl
 
 -- @theorem C05_guard_drop_releases_each_leaf_once_in_its_mode : dropping the guard of any shape releases exactly its leaves, each once, a mutex exclusively and an rwlock in the mode it was taken, also when a release panics or the thread is already unwinding
-theorem C05_guard_drop_releases_each_leaf_once_in_its_mode (n : Nat) (S : Shape) (m : Mode)
+theorem C05_guard_drop_releases_each_leaf_once_in_its_mode (n : Nat) (ro : RankOpt) (S : Shape) (m : Mode)
     (panicking : Bool) (g : HG) (hc : g.held.Covers (holdsOf S m)) :
-    wp (HoldSpec n) (guardDrop m (guardItems S) panicking)
+    wp (HoldSpec n ro) (guardDrop m (guardItems S) panicking)
       (fun _ g' => g'.held = g.held.minus (holdsOf S m) ∧ g'.depth = g.depth) (fun _ _ => False) g := by
   apply guardDrop_spec
   · rw [itemsFp_guardItems]; exact hc
   · intro _ g' a b; rw [itemsFp_guardItems] at a; exact ⟨a, b⟩
 
 -- @theorem C05_collection_release_releases_all_members : the release used by scoped exits and unwind handlers gives back every member even if some unlocks panic (returning or unwinding, the footprint is no longer held)
-theorem C05_collection_release_releases_all_members (n : Nat) (W : World) (S : Shape)
-    (hl : lockable S = true) (m : Mode) (g : HG) (hc : g.held.Covers (shapeFp W S m)) :
-    wp (HoldSpec n) ((toRaw W S).rel m)
+theorem C05_collection_release_releases_all_members (n : Nat) (ro : RankOpt) (W : World) (S : Shape)
+    (hl : lockable S = true) (hk : ShapeOK ro W S) (m : Mode) (g : HG) (hc : g.held.Covers (shapeFp W S m)) :
+    wp (HoldSpec n ro) ((toRaw W S).rel m)
       (fun _ g' => g'.held = g.held.minus (shapeFp W S m)) (fun _ g' => g'.held = g.held.minus (shapeFp W S m)) g := by
-  apply (toRaw_isLock (n := n) W S hl).rel m g _ _ hc rfl
+  apply (toRaw_isLock (n := n) (ro := ro) W S hl hk).rel m g _ _ hc rfl
   intro g' a _ _; exact a
 
 end HLV
